@@ -11,6 +11,7 @@
 -/
 import GqlVerif.Proofs.C08
 import GqlVerif.Proofs.C08Skip
+import GqlVerif.Proofs.C08Bridge
 namespace GqlVerif.Props.C08
 open GqlVerif.Sched
 
@@ -188,5 +189,55 @@ example : issued [0] [⟨2, [1]⟩, ⟨1, [0]⟩, ⟨3, []⟩, ⟨0, []⟩] = [3
 example : issued [0] [⟨3, []⟩, ⟨2, [1]⟩, ⟨1, [0]⟩, ⟨0, []⟩] = [3, 0] := by decide
 example : errored [0] [⟨2, [1]⟩, ⟨1, [0]⟩, ⟨3, []⟩, ⟨0, []⟩] = [2, 1, 0] := by decide
 end Failing
+
+/-! ## The two models meet: failing requests under every schedule of an accepted tree -/
+section Bridge
+open GqlVerif.Plan.Skip
+
+/-- the decision sequence (order of the `start` events, Plan.SkipSched) of **every** schedule of an accepted tree is a
+    legal linearisation in the sense of Plan.Skip: the failing-request theorems above apply to exactly the schedules the
+    loader can take -/
+theorem every_schedule_is_a_legal_decision_sequence (deps : Nat → List Nat) (known : List Nat) (t : FTree)
+    (h : validate deps known t = true) (tr : List Ev) (hl : Linearization t tr) :
+    WO (decisions deps known tr) :=
+  decisions_WO' deps known t tr (validate_sound deps known t h).2.1 (schedule_safe deps known t h tr hl) hl
+
+/-- **for every accepted tree, every set of failing requests and any two schedules** (interleavings and completion orders):
+    the same requests are issued and the same fetches are recorded as failed or skipped -/
+theorem failing_requests_schedule_independent (deps : Nat → List Nat) (known : List Nat) (t : FTree)
+    (h : validate deps known t = true) (fail : List Nat) (tr₁ tr₂ : List Ev)
+    (hl₁ : Linearization t tr₁) (hl₂ : Linearization t tr₂) :
+    (∀ x, x ∈ issued fail (decisions deps known tr₁) ↔ x ∈ issued fail (decisions deps known tr₂)) ∧
+    (∀ x, x ∈ errored fail (decisions deps known tr₁) ↔ x ∈ errored fail (decisions deps known tr₂)) := by
+  have w₁ := every_schedule_is_a_legal_decision_sequence deps known t h tr₁ hl₁
+  have w₂ := every_schedule_is_a_legal_decision_sequence deps known t h tr₂ hl₂
+  have p := decisions_perm deps known t tr₁ tr₂ hl₁ hl₂
+  exact ⟨issued_perm fail _ _ w₁ w₂ p, errored_perm fail _ _ w₁ w₂ p⟩
+
+/-- … and in every schedule a request that reads (inside the DAG) from a failing request is not issued -/
+theorem no_schedule_issues_a_dependent_of_a_failed_request (deps : Nat → List Nat) (known : List Nat) (t : FTree)
+    (h : validate deps known t = true) (fail : List Nat) (tr : List Ev) (hl : Linearization t tr)
+    (i d : Nat) (hi : i ∈ ids t) (hd : d ∈ deps i) (hk : d ∈ known) (hf : d ∈ fail) :
+    i ∉ issued fail (decisions deps known tr) := by
+  have w := every_schedule_is_a_legal_decision_sequence deps known t h tr hl
+  have hso : ∀ j, j ∈ ids t → (⟨j, (deps j).filter (fun d => known.contains d)⟩ : F) ∈ decisions deps known tr := by
+    intro j hj
+    unfold decisions
+    refine List.mem_reverse.mpr (List.mem_map.mpr ⟨j, ?_, rfl⟩)
+    have : (startOrder tr).Perm (ids t) := by
+      have := hl.perm.filterMap startId
+      rwa [show List.filterMap startId (events t) = ids t from startOrder_events t] at this
+    exact this.mem_iff.mpr hj
+  have hdt : d ∈ ids t := (validate_sound deps known t h).2.2.1 d hk
+  exact dependent_of_failed_request_not_issued fail _ w _ _ (hso i hi) (hso d hdt)
+    (by simp [List.mem_filter, hd, hk]) hf
+
+/-! Non-vacuity: the tree S(P(0,1),2) with 2 reading 0 and 1, two of its schedules, request 0 failing -/
+def depsB : Nat → List Nat := fun i => if i == 2 then [0, 1] else []
+def treeB : FTree := .seq (.par (.single 0) (.single 1)) (.single 2)
+example : validate depsB [0, 1, 2] treeB = true := by decide
+example : issued [0] (decisions depsB [0, 1, 2] [.start 0, .start 1, .done 1, .done 0, .start 2, .done 2]) = [1, 0] := by decide
+example : issued [0] (decisions depsB [0, 1, 2] [.start 1, .done 1, .start 0, .done 0, .start 2, .done 2]) = [0, 1] := by decide
+end Bridge
 
 end GqlVerif.Props.C08
